@@ -168,6 +168,10 @@ V: List[Tuple[str, str, str, str, Any, Any, Optional[str]]] = [
     ("C19", "404 test written with the emission predicate", "preserving", S + "dependencies.py", "    if script is None:\n        return HttpResponseNotFound()", "    if script is None or not is_nonempty_str(script):\n        return HttpResponseNotFound()", None),
     ("C19", "middleware rebuilds the response without the status", "breaking", S + "dependencies.py", "            response.content = render_dependencies(response.content, type=\"document\")\n\n        return response", "            new_response = HttpResponse(render_dependencies(response.content, type=\"document\"))\n            return new_response\n\n        return response", "S13"),
     ("C19", "middleware rebuilds the response and copies the status", "preserving", S + "dependencies.py", "            response.content = render_dependencies(response.content, type=\"document\")\n\n        return response", "            new_response = HttpResponse(render_dependencies(response.content, type=\"document\"), status=response.status_code)\n            return new_response\n\n        return response", None),
+    ("C19", "input hashes swapped on the way to the marker", "breaking", S + "component.py", "                js_input_hash=js_input_hash,\n                css_input_hash=css_input_hash,\n            )\n\n            trace_component_msg", "                js_input_hash=css_input_hash,\n                css_input_hash=js_input_hash,\n            )\n\n            trace_component_msg", "S14"),
+    ("C04", "input hashes swapped on the way to the marker", "breaking", S + "component.py", "                js_input_hash=js_input_hash,\n                css_input_hash=css_input_hash,\n            )\n\n            trace_component_msg", "                js_input_hash=css_input_hash,\n                css_input_hash=js_input_hash,\n            )\n\n            trace_component_msg", "S20"),
+    ("C04", "input css urls fed from the js list", "breaking", S + "dependencies.py", "            css={\"all\": [*to_load_component_css_urls, *to_load_input_css_urls]},", "            css={\"all\": [*to_load_component_css_urls, *to_load_input_js_urls]},", "S19"),
+    ("C08", "css placeholder replaced by the js tags", "breaking", S + "dependencies.py", "            replacement = css_replacement\n", "            replacement = js_replacement\n", "S15"),
     ("C19", "comment", "preserving", S + "dependencies.py", "    script = get_script_content(script_type, comp_cls, input_hash)\n    if script is None:", "    script = get_script_content(script_type, comp_cls, input_hash)  # from the media cache\n    if script is None:", None),
 ]
 
